@@ -7,7 +7,7 @@ from ..check import Result
 
 ID = "C17"
 P = "Webauthn.Props.C17."
-THEOREMS = [P + n for n in ("window", "window_real_time", "wired", "clock_per_call")]
+THEOREMS = [P + n for n in ("window", "window_real_time", "wired", "clock_per_call", "timestamp_must_be_integer")]
 LEAN_TARGETS = ["Props.C17"]
 SPEC_FILES = ["Spec/Core.lean"]
 ASSUMPTIONS = ["PARTIAL: the clock and OpenSSL's validity comparison are runtime behaviour; the model takes the clock as an oracle "
